@@ -1,6 +1,7 @@
 """C06 - the build gate.  F: real check_build_status on a stub job for every
 status vector; W: histories with hostile CI on real repositories."""
 import itertools
+import json
 
 from vf.world import gen, monitors, runner
 from vf.world.world import AUTHOR
@@ -27,7 +28,8 @@ ASSUMPTIONS = [
     'status queries Bert-E made to the host during the job',
 ]
 MIN_NONTRIVIAL = 50
-REQUIRED_COUNTERS = {'c06_f_cells': 6000, 'c06_entries_checked': 20,
+REQUIRED_COUNTERS = {'c06_f_cells': 6000, 'c06_h_cells': 600,
+                     'c06_entries_checked': 20,
                      'c06_pushes_during_a_job_before_the_pr_read': 8,
                      'c06_refusals_checked': 20}
 SHARD_TIMEOUT = {'quick': 900, 'thorough': 5400}
@@ -140,6 +142,79 @@ def f_cell(vec, source, key, acc):
                     'outcome': got})
 
 
+def run_h(acc):
+    """The gate behind a REAL host class and the REAL webhook routes (scripted
+    bitbucket / github HTTP, harness of the C17 check): status events for the
+    configured build key and for ANOTHER key reach the server, then the real
+    check_build_status decides on 1-2 integration tips.  Only the state of
+    the configured key on every tip counts."""
+    from vf.func import stubs
+    from vf.checks import c17
+    from bert_e.workflow import gitwaterflow as gwf
+    from bert_e import exceptions as messages
+    real = real_repo()
+    for host in ('bitbucket', 'github'):
+        h = c17.Harness(host)
+        key, other = h.keys
+        settings = stubs.make_settings(build_key=key)
+        stubs.set_cmd_line_options([])
+
+        def hook(sha, k, st):
+            h.set_world(sha, k, st)
+            route, headers, body = h.webhook_request(sha, k, st)
+            h.http.post(route, data=json.dumps(body).encode(),
+                        headers=headers)
+            h.bert_e.task_queue.queue.clear()
+        for n in (1, 2):
+            for vec in itertools.product('SFPN', repeat=n):
+                for others in itertools.product((None, 'S', 'F'), repeat=n):
+                    for own_hook in (False, True):
+                        h.reset(1000)
+                        shas = real['shas'][:n]
+                        for sha, st, ot in zip(shas, vec, others):
+                            h.set_world(sha, key, st)
+                            if own_hook and st != 'N':
+                                hook(sha, key, st)
+                            if ot:
+                                hook(sha, other, ot)
+                        job = stubs.make_job(settings, stubs.StubPR(),
+                                             git_repo=real['repo'])
+                        gwf.handle_comments(job)
+                        job.project_repo = job.bert_e.project_repo = h.repo
+                        try:
+                            gwf.check_build_status(job,
+                                                   real['branches'][:n])
+                            got = 'pass'
+                        except messages.BuildFailed:
+                            got = 'failed-message'
+                        except messages.SilentException as e:
+                            got = 'silent-wait:' + type(e).__name__
+                        if 'F' in vec:
+                            exp = 'failed-message'
+                        elif 'P' in vec or 'N' in vec:
+                            exp = 'silent-wait'
+                        else:
+                            exp = 'pass'
+                        acc.evals += 1
+                        acc.count('c06_h_cells')
+                        if any(others):
+                            acc.count('c06_h_cells_with_another_key_reported')
+                        acc.nontrivial_disjoint += 1
+                        if not got.startswith(exp):
+                            acc.violation(
+                                'build-gate-behind-webhooks-%s-instead-of-%s'
+                                % (got.split(':')[0], exp),
+                                'host=%s: tips with %r under the configured '
+                                'key %r, status events %s for key %r%s: '
+                                'check_build_status -> %s, expected %s' % (
+                                    host, vec, key, list(others), other,
+                                    ' and for the configured key'
+                                    if own_hook else '', got, exp),
+                                {'h': True})
+    acc.exhaustive['H: {S,F,P,N}^n n=1..2 x events for another key x own '
+                   'events x {bitbucket, github}'] = True
+
+
 def run_f(acc, shard, nshards):
     from vf.func import fast
     fast.install()
@@ -177,6 +252,8 @@ def plan(tier, seed):
 def run_shard(spec, acc):
     runner.quiet()
     run_f(acc, spec['shard'], spec['nshards'])
+    if spec['shard'] == 3:
+        run_h(acc)
     prof = gen.profile(p_green=0.6, p_forward=0.65,
                        w={'status': 10, 'stale_status': 3, 'push_commit': 5,
                           'commit_event': 8, 'admin': 0.3})
@@ -211,7 +288,10 @@ def finalize(acc, tier, seed):
 
 
 def replay(witness, acc):
-    if witness.get('f'):
+    if witness.get('h'):
+        runner.quiet()
+        run_h(acc)
+    elif witness.get('f'):
         runner.quiet()
         f_cell(tuple(witness['vec']), witness['source'], witness['key'], acc)
     else:
